@@ -80,14 +80,14 @@ def c17(ctx):
     for b in vlib.read_ndjson(allb, limit=3000)[::1200]:
         ctx.sample(b)
     # real threads, validated against RefThreadsTrace.tla
-    trace_check(ctx, "RefThreadsTrace", bin1, "reference", [ctx.seed, 1000 if q else 20000], "threads",
+    trace_check(ctx, "RefThreadsTrace", bin1, "reference", [ctx.seed, 1000 if q else 10000], "threads",
                 "concurrent increments through References built over one shared Arc / lock", "reference_threads", timeout=1500)
     ctx.rule = ("handles: six variants x every sequence of {clone, to_dyn, write, read, drop} up to the bound with at most 4 live handles, plus "
                 "random sequences of 12; after every operation every live handle is read and the drop counter of the payload inspected; the "
                 "harness is built twice, as a calling crate without and with cargo features named alloc / std, so every to_dyn! step runs in "
                 "both kinds of caller. threads: TLC explores all interleavings of lock / read / write / unlock for (threads, increments) in "
                 "{(2,2),(3,2),(2,3)} (mutual exclusion, no lost update, termination; the lock-free variant must fail), and real runs of "
-                "2, 3-5 and 8 threads x 1e3 (2e4 thorough) increments for the four lock-based variants are validated event by event against "
+                "2, 3-5 and 8 threads x 1e3 (1e4 thorough) increments for the four lock-based variants are validated event by event against "
                 "RefThreadsTrace.tla. Non-trivial = a write plus a clone or to_dyn.")
     ctx.assumptions += ["real thread schedules are sampled by the OS scheduler, not enumerated; exhaustive interleaving coverage is at the model level",
                         "to_dyn! on variants the macro does not list (PtrMutex, ArcRwLock, ArcMutex) is unspecified and not exercised"]
